@@ -124,6 +124,49 @@ pub fn gen_prog(rng: &mut Rng, idx: usize, n: usize, o: &GenOpts) -> String {
     let nops = 3 + (frac * o.max_ops) / 100 + rng.range(0, 4);
     let mut pool = 0usize;
     let mut cur_vars = nvars;
+    // dense family (a quarter of the cases with >= 4 variables): a random truth table built by
+    // Shannon expansion with ite over a palette of random two-variable functions, in an expansion
+    // order unrelated to the builder's order.  Random functions have heavy sharing, nodes reached
+    // in both polarities and collapsing cofactors, which hand-sized and/or programs rarely have.
+    if nvars >= 4 && rng.chance(1, 4) {
+        let ex = rng.perm(nvars); // expansion order
+        for v in 0..nvars {
+            s.push_str(&format!(" v {v} 1"));
+        }
+        pool = nvars; // entry v = positive literal of v
+        let (ya, yb) = (ex[nvars - 1], ex[nvars - 2]);
+        let mut palette = vec![];
+        for _ in 0..rng.range(3, 6) {
+            match rng.below(4) {
+                0 => s.push_str(&format!(" a {ya} {yb}")),
+                1 => s.push_str(&format!(" x {ya} {yb}")),
+                2 => s.push_str(&format!(" o {ya} {yb}")),
+                _ => s.push_str(&format!(" n {}", if rng.coin() { ya } else { yb })),
+            }
+            palette.push(pool);
+            pool += 1;
+            if rng.coin() {
+                s.push_str(&format!(" n {}", pool - 1));
+                palette.push(pool);
+                pool += 1;
+            }
+        }
+        palette.push(ya);
+        palette.push(yb);
+        // levels nvars-3 .. 0 of the expansion order; each level halves the number of entries
+        let depth = (nvars - 2).min(4);
+        let mut layer: Vec<usize> = (0..(1usize << depth)).map(|_| *rng.pick(&palette)).collect();
+        for d in (0..depth).rev() {
+            let x = ex[d];
+            let mut next = vec![];
+            for pair in layer.chunks(2) {
+                s.push_str(&format!(" i {x} {} {}", pair[0], pair[1]));
+                next.push(pool);
+                pool += 1;
+            }
+            layer = next;
+        }
+    }
     let mut new_left = if o.new_vars { rng.range(0, 2) } else { 0 };
     let edge = rng.chance(1, 6);
     for k in 0..nops {
